@@ -19,8 +19,10 @@
 From Ferrous Require Import Base.Bytes Model.Resp Model.Types Model.Strings Model.SkipList.
 Open Scope Z_scope.
 
-(** after the lead applies patches/zadd-refuse-nan.diff this becomes [true]
-    (ZADD / ZINCRBY answer an error instead of storing NaN) *)
+(** after patches/fix-zset-refuse-nan.diff is applied to /repo this becomes [true]:
+    ZADD validates every pair first (NaN refused, nothing added on refusal) and
+    ZINCRBY refuses a NaN increment or result.  The theorems of Props/C04.v are
+    proved for both values; the NaN and zadd-partial witnesses hold for [false] only. *)
 Definition nan_refused : bool := false.
 
 Definition zset := list (bytes * Z).
@@ -173,10 +175,25 @@ Fixpoint zadd_pairs (d : db) (key : bytes) (parts : list frame) (oracle : option
       end
   | _ => (r_int added, d)
   end.
+(** the validation pass of the repaired handler (patches/fix-zset-refuse-nan.diff):
+    every score parses and is not NaN, every member is a bulk string *)
+Fixpoint zadd_valid (parts : list frame) (oracle : option frame) (i : nat) (rest : list frame) : bool :=
+  match rest with
+  | sc :: mb :: rest' =>
+      match float_arg parts oracle i with
+      | None => false
+      | Some score =>
+          negb (f_is_nan score) &&
+          match mb with FBulk _ => zadd_valid parts oracle (S (S i)) rest' | _ => false end
+      end
+  | _ => true
+  end.
 Definition h_zadd (d : db) (parts : list frame) (oracle : option frame) : frame * db :=
   if (nparts parts <? 4) || negb (nparts parts mod 2 =? 0) then (r_err, d) else
   match nth_error parts 1 with
-  | Some (FBulk key) => zadd_pairs d key parts oracle 2%nat (skipn 2 parts) 0
+  | Some (FBulk key) =>
+      if nan_refused && negb (zadd_valid parts oracle 2%nat (skipn 2 parts)) then (r_err, d)
+      else zadd_pairs d key parts oracle 2%nat (skipn 2 parts) 0
   | _ => (r_err, d)
   end.
 
@@ -313,7 +330,9 @@ Definition h_zincrby (d : db) (parts : list frame) (oracle : option frame) : fra
               | None => (r_wrongtype, d)
               | Some (Some v, d') =>
                   if nan_refused && f_is_nan v then (r_err, d) else (r_score v, d')
-              | Some (None, d') => (FError (bs "NOORACLE"), d')
+              | Some (None, d') =>
+                  (* no sum reported: the repaired implementation refused a NaN result *)
+                  if nan_refused then (r_err, d) else (FError (bs "NOORACLE"), d')
               end
           end
       end
